@@ -11,7 +11,6 @@ import (
 	"github.com/vipnode/vipnode/v2/internal/verif/vh"
 	"github.com/vipnode/vipnode/v2/internal/verif/vsched"
 	"github.com/vipnode/vipnode/v2/pool"
-	"github.com/vipnode/vipnode/v2/pool/balance"
 	"github.com/vipnode/vipnode/v2/pool/store"
 )
 
@@ -131,7 +130,7 @@ func c03Connect(driver string) vh.Unit {
 						u.R.States++
 						u.R.Transitions++
 						u.R.Traces++
-						lb, isLow := err.(balance.LowBalanceError)
+						lb, isLow := vh.AsLowBalance(err)
 						want := !isHost && min != "off" && b < m
 						desc := fmt.Sprintf("min=%s split=%s balance=%d entry=%s", min, split, b, entry)
 						u.Observe(fmt.Sprintf("%s %s %d %v", min, entry, off, isLow))
@@ -203,7 +202,7 @@ func c03Update(driver string) vh.Unit {
 								}
 								// establish tracking (elapsed 0: nothing billed)
 								if _, err := pw.Update(C, hostIDs, 1); err != nil {
-									if _, low := err.(balance.LowBalanceError); !low {
+									if _, low := vh.AsLowBalance(err); !low {
 										u.Violate("keepalive/setup-failed", fmt.Sprintf("min=%s: %v", min, err), nil)
 									}
 								}
@@ -225,7 +224,7 @@ func c03Update(driver string) vh.Unit {
 								u.R.States++
 								u.R.Transitions++
 								u.R.Traces++
-								lb, isLow := err.(balance.LowBalanceError)
+								lb, isLow := vh.AsLowBalance(err)
 								bills := !asHost && gross > 0
 								want := bills && min != "off" && after < m
 								desc := fmt.Sprintf("min=%s split=%s balance-before=%d net charge=%d (elapsed=%dns x %d peers) host=%v", min, split, b, charge, elapsed, nHosts, asHost)
@@ -323,7 +322,7 @@ func c03SharedRace(driver string, bound int) vh.Unit {
 				final := spendable(pw, C1.NodeID)
 				cut := 0
 				for i, e := range res {
-					lb, low := e.(balance.LowBalanceError)
+					lb, low := vh.AsLowBalance(e)
 					if e != nil && !low {
 						return "shared-wallet-race/unexpected-error", fmt.Sprintf("keep-alive %d: %v", i, e)
 					}
@@ -389,7 +388,7 @@ func c03Walk(driver string, depth int) vh.Unit {
 					case "conn":
 						pre := spendable(w.pw, C.NodeID)
 						_, err := w.pw.Connect(C, vh.ConnectOpts{})
-						_, isLow := err.(balance.LowBalanceError)
+						_, isLow := vh.AsLowBalance(err)
 						if judge {
 							u.Observe(fmt.Sprint("conn ", pre.Cmp(m), isLow))
 							if isLow != (pre.Cmp(m) < 0) {
@@ -402,7 +401,7 @@ func c03Walk(driver string, depth int) vh.Unit {
 						el := int64(vsched.Now().Sub(node.LastSeen))
 						pre := spendable(w.pw, C.NodeID)
 						_, err := w.pw.Update(C, hostIDs, 2)
-						_, isLow := err.(balance.LowBalanceError)
+						_, isLow := vh.AsLowBalance(err)
 						post := spendable(w.pw, C.NodeID)
 						if judge {
 							charge := el * int64(len(peers))
